@@ -39,7 +39,7 @@ TProc ==
           /\ Check(~pr.timeout, "C14", "hang")
           /\ Check(Rec.mode = C!ModeOf(i) \/ i.version, "C14", "mode")
           /\ Check(pr.exit = wantExit, "C14", <<"exit-status", o.kind, wantExit, pr.exit>>)
-          /\ (o.kind = "lib" /\ ~Rec.lib.err) =>
+          /\ (o.kind = "lib" /\ ~Rec.lib.err /\ ~(i.o /\ i.obad)) =>
                IF i.o THEN /\ Check(pr.stdout = "", "C14", "o-also-prints")
                            /\ Check(Rec.file_written /\ Rec.file = Rec.lib.out, "C14", "o-file-differs-from-library")
                ELSE Check(pr.stdout = Rec.lib.out, "C14", "stdout-differs-from-library")
